@@ -245,6 +245,20 @@ def oracle_cards(case, R):
                 _same_field(a, b, fmt, R, f"fmt={fmt} card {ci} field {k}")
             if len(w) > per_line and "" in w[:-1]:
                 nontriv = True
+    # keep_name=True only adds the card name in front of the same fields
+    def with_name(txt, plain, tag):
+        rn = nastran.rdcards(io.StringIO(txt), case["name"], return_var="list", keep_name=True)
+        if plain is None or not R.check(rn is not None and len(rn) == len(plain), f"{tag}_keep_name_count",
+                                        f"{None if rn is None else len(rn)} vs {len(plain)}"):
+            return
+        for ci, (g, w) in enumerate(zip(rn, plain)):
+            g = _strip_trailing(list(g))
+            okn = len(g) >= 1 and str(g[0]).lower().rstrip("*") == str(case["name"]).lower()   # (large-field cards keep their "*")
+            R.check(okn and len(g) - 1 == len(w) and all(
+                (x == y) or (isinstance(x, float) and isinstance(y, float) and x == y)
+                for x, y in zip(g[1:], w)), f"{tag}_keep_name_fields",
+                f"card {ci}: with name {g!r} vs without {w!r}")
+    with_name(text, rd, "fixed")
     # independently written comma form of the same cards
     lines = []
     for flds in case["cards"]:
@@ -279,6 +293,7 @@ def oracle_cards(case, R):
                     continue
                 for k, (a, b) in enumerate(zip(g, w)):
                     _same_field(a, b, fmt, R, f"comma card {ci} field {k}")
+            with_name(ctext, rc, "comma")
             if ok and rd is not None and len(rd) == len(rc):
                 R.check(all(len(a) == len(b) and all(
                     (x == y) or (isinstance(x, float) and isinstance(y, float) and x == y)
